@@ -271,7 +271,7 @@ fn case(rng: &mut Rng, pool: &Pool, rep: &mut Report, case_no: u64) {
 pub fn run(args: &Args) -> i32 {
     let mut rep = Report::new(args);
     let pool = crate::sys::make_pool(1);
-    let n = args.count(4000, 80_000);
+    let n = args.count(160_000, 2_000_000);
     let range: Vec<u64> = match args.case {
         Some(c) => vec![c],
         None => (0..n).collect(),
